@@ -345,3 +345,70 @@ Example C10_cache_concrete :
   c10_cache_case true patches hist false (Some (false, e)) e pre good (Some [16; 15]) (Some [[0; 0; 16]; [3; 4; 8]]) = 0%nat /\
   c10_cache_case true patches hist false (Some (false, e)) e pre pre (Some [16; 15]) (Some [[0; 4; 24]; [3; 0; 0]]) = 151%nat.
 Proof. vm_compute. repeat split; reflexivity. Qed.
+
+(* ---- extreme but legal sizes of the binning: 1 bin ... 10^5 bins, very narrow bins next to very wide
+        ones; the edges are built from (lo, [(step, count)]), the observations are sparse ---- *)
+
+(* segments with positive steps and counts describe a valid binning with the announced number of bins *)
+Theorem C10_seg_edges_valid : forall lo segs, segs_ok segs = true ->
+  increasing (seg_edges lo segs) /\ (2 <= length (seg_edges lo segs))%nat /\
+  nbins (seg_edges lo segs) = segs_count segs.
+Proof. exact seg_edges_valid. Qed.
+Print Assumptions C10_seg_edges_valid.
+
+(* the bin index computed by skipping whole chunks of edges is np.digitize, for every chunk size *)
+Theorem C10_chunked_digitize : forall cr edges objs k, increasing edges ->
+  ixz cr (chunks_of k k [] edges) objs = map (fun o => Z.of_nat (digitize cr edges (oz o))) objs.
+Proof. exact ixz_eq. Qed.
+Print Assumptions C10_chunked_digitize.
+
+(* a sparse observation that lists the model's value in every listed bin and in every bin an object is
+   sent to agrees with the model in ALL bins *)
+Theorem C10_sparse_sound : forall (A : Type) (eqb : A -> A -> bool) d f ix s b,
+  sparse_ok eqb d f ix s = true -> eqb d d = true -> (~ In (b + 1)%Z ix -> f b = d) ->
+  eqb (zlookup d b s) (f b) = true.
+Proof. exact @sparse_ok_sound. Qed.
+Print Assumptions C10_sparse_sound.
+
+(* the checker the harness evaluates on every case of the 'large' family *)
+Theorem C10_big_case_sound : forall cr hasw lo segs nbz patches trees hist meas,
+  c10_big_case cr hasw lo segs nbz patches trees hist meas = 0%nat ->
+  let edges := seg_edges lo segs in
+  increasing edges /\ (2 <= length edges)%nat /\ Z.of_nat (nbins edges) = nbz /\ nbins edges = segs_count segs /\
+  length trees = length patches /\
+  (forall p, (p < length patches)%nat ->
+     exists s, nth p trees None = Some (nbz, s) /\
+       forall b, (b < nbins edges)%nat ->
+         fst (zlookup dummy_tree (Z.of_nat b) s) = spec_count cr edges (nth p patches []) b /\
+         snd (zlookup dummy_tree (Z.of_nat b) s) == spec_weight hasw cr edges (nth p patches []) b) /\
+  (exists s, hist = Some (nbz, s) /\
+     forall b, (b < nbins edges)%nat -> zlookup 0 (Z.of_nat b) s == nth b (spec_hist hasw cr edges patches) 0) /\
+  (forall m, meas = Some m -> length m = length patches /\
+     forall p, (p < length patches)%nat ->
+       exists s, nth p m (0%Z, []) = (nbz, s) /\
+         forall b, (b < nbins edges)%nat ->
+           zlookup 0 (Z.of_nat b) s == spec_weight hasw cr edges (nth p patches []) b).
+Proof. exact big_case_sound. Qed.
+Print Assumptions C10_big_case_sound.
+
+(* non-vacuity: 33002 bins: 1000 bins of width 2^-20, one bin of width 8, 32001 bins of width 2^-10; redshifts on
+   the first edge, on the two edges of the wide bin, on the edges of bins 32766 / 32767 / 32768 and of the last
+   bin, one midpoint, below and above; closed = right and closed = left give different, fully determined sparse
+   trees; an observation in which the objects of the bins from index 32767 on are missing from the trees and the
+   measurement (but not from the histogram) is flagged: flags 0, 1 (trees) and 4, 5 (measurement) *)
+Example C10_big_concrete :
+  let segs := [(1 # 1048576, 1000%nat); (8, 1%nat); (1 # 1024, N.to_nat 32001)] in
+  let z (k : Z) := (1 # 4) + (1000 # 1048576) + 8 + (k # 1024) in          (* edge 1001 + k *)
+  let objs := [(1 # 4, 1); ((1 # 4) + (1000 # 1048576), 2); (z 0%Z, 4); (z 31765%Z, 8); (z 31766%Z, 16); (z 31767%Z, 32);
+               (z 32000%Z, 64); (z 32001%Z, 128); ((z 32000%Z) + (1 # 2048), 256); (1 # 8, 512); (z 32002%Z, 1024)] in
+  let right := [(999%Z, (1%nat, 2)); (1000%Z, (1%nat, 4)); (32765%Z, (1%nat, 8)); (32766%Z, (1%nat, 16)); (32767%Z, (1%nat, 32));
+                (33000%Z, (1%nat, 64)); (33001%Z, (2%nat, 384))] in
+  let left := [(0%Z, (1%nat, 1)); (1000%Z, (1%nat, 2)); (1001%Z, (1%nat, 4)); (32766%Z, (1%nat, 8)); (32767%Z, (1%nat, 16));
+               (32768%Z, (1%nat, 32)); (33001%Z, (2%nat, 320))] in
+  let w (s : list (Z * tree)) := map (fun e => (fst e, snd (snd e))) s in
+  let lost := firstn 4 right in
+  segs_ok segs = true /\
+  c10_big_case true true (1 # 4) segs 33002 [objs] [Some (33002%Z, right)] (Some (33002%Z, w right)) (Some [(33002%Z, w right)]) = 0%nat /\
+  c10_big_case false true (1 # 4) segs 33002 [objs] [Some (33002%Z, left)] (Some (33002%Z, w left)) (Some [(33002%Z, w left)]) = 0%nat /\
+  c10_big_case true true (1 # 4) segs 33002 [objs] [Some (33002%Z, lost)] (Some (33002%Z, w right)) (Some [(33002%Z, w lost)]) = 51%nat.
+Proof. vm_compute. repeat split; reflexivity. Qed.
